@@ -52,6 +52,7 @@ type interpreter struct {
 	syncSt             *syncState
 	lastNow            value
 	fsSt               *fsState
+	expectExit         bool
 }
 
 type deferred struct {
